@@ -19,6 +19,25 @@ CatFiles(files, i) == IF i > Len(files) THEN <<>> ELSE files[i].items \o CatFile
 Emit(e, its) == \A it \in its : PrintT(<<"ITEM", ToJson([cls |-> it.cls, what |-> it.what, l |-> l, id |-> e.id, more |-> it.more])>>)
 It(cls, what, more) == [cls |-> cls, what |-> what, more |-> more]
 ToSetOf(s) == {s[i] : i \in DOMAIN s}
+(* The introspection system's own types (`__Schema`, `__Type`, ...) exist on the JSON route only (a standard introspection result lists    *)
+(* them); they are outside the comparison: aliases of that name are skipped, and object members KEYED by such a type name (the entries of   *)
+(* `Resolvers` / `ResolverOutput` for them) are dropped before the types are normalised.                                                     *)
+RECURSIVE DropMetaTokens(_, _)      \* a type the reader keeps as raw tokens (`{ A: A; __Schema: __Schema; }[T]`): the members `m: m;` of meta types m go
+DropMetaTokens(tk, M) ==
+  IF Len(tk) = 0 THEN <<>>
+  ELSE IF Len(tk) >= 4 /\ tk[1] \in M /\ tk[2] = ":" /\ tk[3] \in M /\ tk[4] = ";" THEN DropMetaTokens(SubSeq(tk, 5, Len(tk)), M)
+  ELSE <<tk[1]>> \o DropMetaTokens(Tail(tk), M)
+RECURSIVE StripMeta(_, _)
+StripMeta(t, M) ==
+  CASE t.k = "raw" -> [t EXCEPT !.tokens = DropMetaTokens(t.tokens, M)]
+    [] t.k = "obj" -> [t EXCEPT !.fs = LET kept == SelectSeq(t.fs, LAMBDA f : f.key \notin M) IN [i \in DOMAIN kept |-> [kept[i] EXCEPT !.t = StripMeta(kept[i].t, M)]]]
+    [] t.k \in {"union", "inter"} -> [t EXCEPT !.ts = [i \in DOMAIN t.ts |-> StripMeta(t.ts[i], M)]]
+    [] t.k = "array" -> [t EXCEPT !.of = StripMeta(t.of, M)]
+    [] t.k = "ref" -> [t EXCEPT !.args = [i \in DOMAIN t.args |-> StripMeta(t.args[i], M)]]
+    [] OTHER -> t
+AliasesM(files, M) == UNION {{[file |-> files[f].file, name |-> files[f].aliases[i].name, params |-> files[f].aliases[i].params, t |-> NT(StripMeta(files[f].aliases[i].t, M))]
+                          : i \in {j \in DOMAIN files[f].aliases : ~IsMetaName(files[f].aliases[j].base) \/ files[f].aliases[j].base \in {"__nitrogql_schema", "__SelectionSet", "__Beautify", "__Resolver", "__TypeResolver"}}}
+                         : f \in DOMAIN files}
 Aliases(files) == UNION {{[file |-> files[f].file, name |-> files[f].aliases[i].name, params |-> files[f].aliases[i].params, t |-> NT(files[f].aliases[i].t)]
                           : i \in {j \in DOMAIN files[f].aliases : ~IsMetaName(files[f].aliases[j].base) \/ files[f].aliases[j].base \in {"__nitrogql_schema", "__SelectionSet", "__Beautify", "__Resolver", "__TypeResolver"}}}
                          : f \in DOMAIN files}
@@ -36,7 +55,8 @@ TTwin ==
                                              [sdl |-> a.check, json |-> b.check, docs |-> e.docs])}
                  genOutcome == IF (a.gen.exit = 0) = (b.gen.exit = 0) THEN {} ELSE {It("generate-outcome-differs", "generate succeeds on one route only", [sdl |-> a.gen.diag, json |-> b.gen.diag])}
                  unread == IF a.gen.unreadable # <<>> \/ b.gen.unreadable # <<>> THEN {It("unreadable", "a declaration file is outside the emitted TS subset", [sdl |-> a.gen.unreadable, json |-> b.gen.unreadable])} ELSE {}
-                 x == Aliases(a.gen.files) y == Aliases(b.gen.files)
+                 metaNames == LET ts == e.intro["__schema"].types IN {ts[i].name : i \in {j \in DOMAIN ts : IsMetaName(ts[j].name)}}
+                 x == AliasesM(a.gen.files, metaNames) y == AliasesM(b.gen.files, metaNames)
                  types == IF a.gen.exit # 0 \/ b.gen.exit # 0 \/ x = y THEN {}
                           ELSE {It("types-differ", "an exported type differs between the two routes",
                                    [differing |-> {[file |-> z.file, name |-> z.name] : z \in (x \ y) \cup (y \ x)}])}
